@@ -58,4 +58,25 @@ Section WithParser.
           | _, _ => []
           end
     end.
+
+  (* the same with the request's connection type: requests = (conn type, is_head, read_all) *)
+  Definition conn_exchange_ct (rc : ctype) (is_head read_all : bool) (evs : list ev) : xres * list ev :=
+    let evs1 := remove_first_W evs in
+    let '(segs, tail) := leading_data evs1 in
+    let closed := match tail with EC :: _ => true | _ => false end in
+    let xr := exchange_ct hp max_buffer_size v rc is_head read_all segs closed in
+    (xr, map ED (x_rest xr) ++ tail).
+
+
+  Fixpoint conn_run_ct (reqs : list (ctype * bool * bool)) (evs : list ev) : list outcome :=
+    match reqs with
+    | [] => []
+    | (rc, is_head, read_all) :: more =>
+        let '(xr, evs') := conn_exchange_ct rc is_head read_all evs in
+        x_out xr ::
+          match x_fate xr, conn_state evs' with
+          | FReleased, Live => conn_run_ct more evs'
+          | _, _ => []
+          end
+    end.
 End WithParser.
